@@ -364,6 +364,9 @@ func (p *pathCtx) model() (map[string]interface{}, error) {
 	}
 	for _, u := range p.ufApps {
 		terms = append(terms, u.Arg, u.App)
+		if u.Kind == "iri" {
+			terms = append(terms, "(url_host "+u.App+")")
+		}
 	}
 	if len(terms) == 0 {
 		return tape, nil
@@ -378,6 +381,13 @@ func (p *pathCtx) model() (map[string]interface{}, error) {
 		if in.Kind == "iri" {
 			s, _ := decodeSMTString(vals[in.Name])
 			h, _ := decodeSMTString(vals["(url_host "+in.Name+")"])
+			iriVals[s] = h
+		}
+	}
+	for _, u := range p.ufApps {
+		if u.Kind == "iri" {
+			s, _ := decodeSMTString(vals[u.App])
+			h, _ := decodeSMTString(vals["(url_host "+u.App+")"])
 			iriVals[s] = h
 		}
 	}
@@ -412,7 +422,7 @@ func (p *pathCtx) model() (map[string]interface{}, error) {
 			tape[key] = vals[u.App] == "true"
 		case "int":
 			tape[key] = parseBV(vals[u.App])
-		case "string":
+		case "string", "iri":
 			s, _ := decodeSMTString(vals[u.App])
 			tape[key] = ren(s)
 		}
